@@ -652,3 +652,85 @@ def check_C14(ctx):
 def split_top(s):
     """splits 'a;b;c' at top level (no nesting-aware need: values never contain ';')"""
     return s.split(';')
+
+
+# ------------------------------------------------------------------ C19 -----
+def library_static_storage(binary):
+    """writable objects with static or thread storage duration that belong to the library,
+    as linked into a binary"""
+    r = run(['nm', '-C', binary], timeout=300)
+    out = []
+    for l in r.stdout.splitlines():
+        p = l.split(' ', 2)
+        if len(p) < 3 or p[1] not in 'bBdD':
+            continue
+        name = p[2]
+        if name.startswith(('typeinfo', 'vtable', 'VTT', 'construction vtable')):
+            continue
+        base = name[len('guard variable for '):] if name.startswith('guard variable for ') else name
+        if base.startswith('nop::'):
+            out.append(name)
+    return out
+
+
+def check_C19(ctx):
+    proofs_or_violation(ctx, ['Properties_C19.v'])
+    pool = get_pool()
+    rng = ctx.rng
+    # ---- no static state in the library other than ThreadLocal's cell
+    allowed = re.compile(r'^(guard variable for )?nop::ThreadLocal<.*>::GetValue\(\)::value(\[abi:cxx11\])?$')
+    nstat = 0
+    for b in ('thr', 'harness', 'rpc', 'rpcp', 'objs', 'prim'):
+        path = os.path.join(pool.dir, b)
+        if not os.path.exists(path):
+            continue
+        for name in library_static_storage(path):
+            nstat += 1
+            ctx.count('static-storage', name)
+            if not allowed.match(name):
+                ctx.violate('static-state', 'the library keeps an object with static storage duration that is shared by every thread: %s (in %s)' % (name[:300], b),
+                            {'binary': path, 'symbol': name})
+    # ---- N threads under ThreadSanitizer, compared with a sequential run and with the model
+    def script(n):
+        ops = []
+        for _ in range(n):
+            k = rng.random()
+            s = rng.randrange(6)
+            if k < 0.12: ops.append('N%d:%d' % (s, rng.randrange(1, 1000)))
+            elif k < 0.24: ops.append('I%d:%d' % (s, rng.randrange(1, 1000)))
+            elif k < 0.50: ops.append('G%d' % s)
+            elif k < 0.60: ops.append('S%d:%d' % (s, rng.randrange(1, 1000)))
+            elif k < 0.68: ops.append('C%d' % s)
+            elif k < 0.80: ops.append('E%d' % rng.randrange(0, 64))
+            elif k < 0.90: ops.append('T%d' % rng.randrange(0, 64))
+            else: ops.append('R%d' % rng.randrange(0, 64))
+        return ','.join(ops)
+    lines = []
+    for _ in range(40 if ctx.quick else 1200):
+        nt = rng.choice([2, 3, 4, 8])
+        sc = ';'.join(script(rng.randint(4, 30 if ctx.quick else 80)) for _ in range(nt))
+        for seed in range(3 if ctx.quick else 6):
+            lines.append('thr %d %s' % (rng.randrange(1, 1 << 30), sc))
+    env = dict(os.environ)
+    env['TSAN_OPTIONS'] = 'halt_on_error=1 exitcode=66 second_deadlock_stack=1'
+    ho = run_parallel([os.path.join(pool.dir, 'thr')], lines, env=env, what='thr')
+    mo = run_driver(pool, lines)
+    broken = []
+    for line, o, m in zip(lines, ho, mo):
+        ctx.count('threaded-scripts', line)
+        if o.startswith(BADOUT) or not o.startswith('conc='):
+            ctx.violate('data-race', 'ThreadSanitizer report or crash while %d threads ran their own objects: %s -> %s' % (line.split(' ')[2].count(';') + 1, line[:200], o[:600]),
+                        {'case': line, 'output': o})
+            continue
+        f = sx.fields(o)
+        if f['conc'] != f['seq']:
+            ct, st = f['conc'].split(';'), f['seq'].split(';')
+            i = next(k for k in range(len(ct)) if ct[k] != st[k])
+            ctx.violate('schedule-dependent', 'thread %d observed %s when run concurrently but %s when the threads run one after the other; %s' % (i, ct[i][:200], st[i][:200], line[:200]),
+                        {'case': line, 'output': o})
+            continue
+        tl = ';'.join(','.join(x for x in t.split(',') if x.startswith('G:')) or '-' for t in f['conc'].split(';'))
+        if not m.startswith('DRIVER') and m != 'tl=' + tl:
+            broken.append({'case': line, 'hraw': 'tl=' + tl, 'mraw': m})
+    report_broken(ctx, broken, 'threadlocal', 'ThreadLocal<T,Slot>::Get() observations of every thread = model trun / view')
+    return finish_with_proofs(ctx, {'threaded_runs': len(lines), 'library_static_objects_seen': nstat})
